@@ -508,10 +508,13 @@ PROPS.update({
                 "kind() must name it, and memory_usage() must not be exactly that of a hand-built low-level automaton "
                 "of ANOTHER kind with the same options while differing from the requested kind's (in practice it "
                 "equals the requested kind's: tally requested_kind_confirmed_by_heap_usage); every kind x start kind "
-                "x match kind cell is built for 1, 3, 100, 101 and 130 patterns.",
+                "x match kind cell is built for 1, 3, 100, 101 and 130 patterns. Builders obtained through the Default "
+                "trait (T::default(), mem::take) must behave like those from new() (packed: len()/minimum_len(), "
+                "buildability, searches; automata: metadata and heap usage), and the option enums' defaults are the "
+                "documented ones.",
         "assumptions": COMMON_ASSUMPTIONS[1:] + ["the documented size limits (2^31 states etc.) are not approached"],
         "stages": {"quick": NATIVE, "thorough": NATIVE},
-        "floors": {"quick": {"explicit_kind_matrix_cells": 135, "requested_kind_confirmed_by_heap_usage": 3000, "builders_with_setter_history": 80, "packed_match_kind_reads": 40, "builder_reuse_builds": 500, "packed_builder_reuse_cases": 150, "big_dense_builds": 4, "metadata_read_through_reference_type": 2000, "evaluations": 40_000, "distinct_nontrivial": 8000, "pattern_id_probes": 30_000,
+        "floors": {"quick": {"default_trait_builder_sets": 1500, "explicit_kind_matrix_cells": 135, "requested_kind_confirmed_by_heap_usage": 3000, "builders_with_setter_history": 80, "packed_match_kind_reads": 40, "builder_reuse_builds": 500, "packed_builder_reuse_cases": 150, "big_dense_builds": 4, "metadata_read_through_reference_type": 2000, "evaluations": 40_000, "distinct_nontrivial": 8000, "pattern_id_probes": 30_000,
                              "built_top-auto": 1000, "built_low-dfa": 1000, "built_low-cnfa": 1000,
                              "shape_thousands_of_random_patterns": 200, "shape_no_patterns": 500,
                              "convenience_constructor_sets": 500},
@@ -553,7 +556,7 @@ PROPS.update({
                 {"kind": "miri", "name": "miri", "stage": "miri", "tier": "tiny", "shards": 64},
             ],
         },
-        "floors": {"quick": {"evaluations": 3_000_000, "guard_right_SlimSSSE3_m1": 30_000, "guard_left_SlimSSSE3_m1": 30_000,
+        "floors": {"quick": {"converted_automata_built": 2500, "evaluations": 3_000_000, "guard_right_SlimSSSE3_m1": 30_000, "guard_left_SlimSSSE3_m1": 30_000,
                              "guard_right_FatAVX2_m4": 100_000, "guard_right_SlimAVX2_m2": 50_000,
                              "guard_right_prefilter_Packed": 20_000, "guard_right_prefilter_RareBytesOne": 15_000,
                              "guard_right_prefilter_Memmem": 8000,
